@@ -375,14 +375,14 @@ fn gen_case(rng: &mut Rng, max_steps: usize, c19: bool) -> Case {
         gen_set(rng)
     };
     let (root, init) = gen_initial(rng, &s0);
-    let nsteps = 1 + rng.below(max_steps);
+    let nsteps = if c19 && rng.chance(60) { 2 + rng.below(max_steps.max(2) - 1) } else { 1 + rng.below(max_steps) };
     let mut sets = vec![s0];
     for _ in 1..nsteps {
         let prev = sets.last().unwrap().clone();
         sets.push(if rng.chance(10) { prev } else { mutate(rng, &prev) });
     }
     let steps: Vec<Step> = sets.iter().map(|s| ordered(rng, s)).collect();
-    let fault_step = if rng.chance(40) { 0 } else { rng.below(nsteps) };
+    let fault_step = if nsteps == 1 || rng.chance(35) { 0 } else { 1 + rng.below(nsteps - 1) };
     let changes = rng.below(4);
     let mut rec = sets[fault_step].clone();
     for _ in 0..changes {
